@@ -78,7 +78,7 @@ EncodeVerdict(e, raw) ==
 \* ---- setter -> getter ----
 Expect(e) ==
   CASE e.field = "tier" -> e.arg % 4096
-    [] e.field \in {"cmd.pts", "comp.pts"} -> Mod33(e.arg)
+    [] e.field \in {"cmd.pts", "ins.comp.pts"} -> Mod33(e.arg)
     [] e.field = "seg.dur" -> Mod40(e.arg)
     [] e.field = "seg.upid" -> (IF e.ctx_upidtype = 13 THEN <<>> ELSE e.arg)
     [] e.field = "seg.mid" -> (IF e.ctx_upidtype = 13 THEN e.arg ELSE <<>>)
@@ -94,6 +94,7 @@ Strip(field) == CASE field = "seg.eid" -> "eid" [] field = "seg.type" -> "type" 
                   [] field = "ins.eid" -> "eid" [] field = "ins.out" -> "out" [] field = "ins.cancel" -> "cancel" [] field = "ins.hasdur" -> "hasdur"
                   [] field = "ins.dur" -> "dur" [] field = "ins.autoret" -> "autoret" [] field = "ins.upid" -> "upid" [] field = "ins.avail" -> "avail"
                   [] field = "ins.avails" -> "avails" [] field = "ins.program" -> "program" [] field = "ins.immediate" -> "immediate"
+                  [] field \in {"ins.comp.tag", "ins.comp.haspts", "ins.comp.pts"} -> "comps"
                   [] OTHER -> field
 \* getter keys a setter may change
 MayChange(field) ==
@@ -118,8 +119,16 @@ FrameBroken(e) ==
      ELSE IF ~insOK THEN "splice-insert-getter"
      ELSE IF ~segOK THEN "descriptor-getter"
      ELSE ""
+CompKey(field) == CASE field = "ins.comp.tag" -> "tag" [] field = "ins.comp.haspts" -> "haspts" [] OTHER -> "pts"
+CompFrameBroken(e) ==
+  LET b == e.before.insert.comps  a == e.after.insert.comps IN
+  \/ Len(a) # Len(b)
+  \/ \E j \in 1..Len(b) : IF j = e.k + 1 THEN ~SameExcept(b[j], a[j], {CompKey(e.field)}) ELSE a[j] # b[j]
+IsCompOp(e) == e.field \in {"ins.comp.tag", "ins.comp.haspts", "ins.comp.pts"}
 SetVerdict(e, raw) ==
-  IF e.got # Expect(e) THEN "setter-not-reflected-" \o e.field
+  IF IsCompOp(e) /\ e.nocomp THEN (IF e.data_after # raw \/ e.before # e.after THEN "harness-skipped-call-changed-something" ELSE "")   \* no component to edit: no call was made
+  ELSE IF e.got # Expect(e) THEN "setter-not-reflected-" \o e.field
+  ELSE IF IsCompOp(e) /\ CompFrameBroken(e) THEN "component-setter-changed-another-component-or-attribute"
   ELSE IF FrameBroken(e) # "" THEN "setter-" \o e.field \o "-changed-another-" \o FrameBroken(e)
   ELSE IF e.field = "seg.type" /\ e.arg \in {52, 54} /\ e.after.descs[e.seg_index + 1].hassub # e.before.descs[e.seg_index + 1].hassub THEN "settype-changes-sub-segments"
   ELSE IF e.field = "seg.type" /\ e.arg \notin {52, 54} /\ e.hassub_after THEN "settype-keeps-sub-segments"
